@@ -221,6 +221,7 @@ def decide(pid, tier):
         broken_tie.append("harness no longer builds against /repo: " + hout[-2000:])
 
     all_cases = {}
+    crash_inputs = []
     summaries = []
     go_oracle = []
     case_inputs = {}
@@ -237,6 +238,13 @@ def decide(pid, tier):
                 rc, rout = 124, "harness timed out: %s" % e
             if not obligation("harness run " + sub["name"], rc == 0, rout[-3000:]):
                 broken_tie.append("harness %s failed (exit %d): %s" % (sub["name"], rc, rout[-2000:]))
+                inf = os.path.join(out, "inflight.json")
+                if os.path.exists(inf):
+                    # the process died inside the code under test: the input it was given is the failing input
+                    try:
+                        crash_inputs.append((sub["name"], json.load(open(inf)), rout[-1500:]))
+                    except Exception:
+                        pass
                 continue
             s = json.load(open(os.path.join(out, "summary.json")))
             summaries.append(s)
@@ -310,9 +318,12 @@ def decide(pid, tier):
             continue
         seen_comp.add(comp)
         violations.append((write_replay(pid, "prop", case_payload(cname, comp)), ""))
+    for hname, inp, tail_out in crash_inputs:
+        violations.append((write_replay(pid, "crash", {"property": pid, "component": "the harness process died while the code under test handled this input",
+                                                        "input": inp, "harness": hname, "output_tail": tail_out, "seed": seed, "tier": tier}), ""))
     if corr_fail or broken_tie:
         # the tie between model and code no longer checks: the property is no longer shown to hold
-        if prop_fail:
+        if prop_fail or crash_inputs:
             pass  # a concrete failing input was found and is reported above
         else:
             payload = {"property": pid, "no_longer_checks": broken_tie + sorted({"correspondence " + k for _, k in corr_fail}),
